@@ -22,6 +22,7 @@ from vlib import OUT
 
 PID = "C07"
 D = os.path.join(OUT, PID)
+MAX_HANGS = 6          # each costs the 8 s watchdog of the driver
 
 MC_QUICK = ["MC_Sampler_thm", "MC_Sampler_ref_2_3q", "MC_Sampler_ref_4_2", "MC_Sampler_ref_7_1q"]
 MC_THOROUGH = ["MC_Sampler_thm_big", "MC_Sampler_ref_2_3", "MC_Sampler_ref_4_2", "MC_Sampler_ref_3_2", "MC_Sampler_ref_7_1",
@@ -113,6 +114,8 @@ def classify(c, run):
     kind = c["kind"]
     if kind in ("perm", "rot") and c["n"] <= 1 and ("exc" in run or "crash" in run):
         return "%s-size%d-%s" % ("shuffle" if kind == "perm" else "rotation", c["n"], "crash" if "crash" in run else "throws")
+    if "hang" in run:
+        return kind + ":no-return"
     if "crash" in run:
         return kind + ":crash"
     if "exc" in run:
@@ -163,11 +166,28 @@ def run_cases(exe, tag, cases):
     cp = os.path.join(D, "cases-%s.ndjson" % tag)
     op = os.path.join(D, "results-%s.ndjson" % tag)
     vlib.write_ndjson(cp, cases)
-    rc, so, se, _ = vlib.run_driver(exe, ["cases", cp, op], timeout=1500)
-    if rc != 0:
-        raise vlib.Infra("drv_sampler cases failed (rc=%s): %s %s" % (rc, so[-400:], se[-400:]))
-    res = vlib.read_ndjson(op)
-    if len(res) != len(cases):
+    start, hangs = 0, 0
+    while True:
+        rc, so, se, _ = vlib.run_driver(exe, ["cases", cp, op, start], timeout=1500)
+        if rc == 0:
+            break
+        if rc != 4:
+            raise vlib.Infra("drv_sampler cases failed (rc=%s): %s %s" % (rc, so[-400:], se[-400:]))
+        # a library call did not return (watchdog): the last line names the case; go on behind it
+        last = vlib.read_ndjson(op)[-1]
+        if not last.get("hang"):
+            raise vlib.Infra("drv_sampler exit 4 without hang marker")
+        hangs += 1
+        start = last["line"]
+        if hangs >= MAX_HANGS:
+            vlib.log("%s: %d library calls did not return; the remaining %d cases are not executed" % (tag, hangs, len(cases) - start))
+            break
+    res = []
+    for x in vlib.read_ndjson(op):
+        if x.get("hang"):
+            x = {"id": x["id"], "runs": [{"hang": True}]}
+        res.append(x)
+    if len(res) != len(cases) and hangs < MAX_HANGS:
         raise vlib.Infra("drv_sampler returned %d results for %d cases" % (len(res), len(cases)))
     return res
 
@@ -207,7 +227,7 @@ def validate_trace(ck, tag, path):
 def record_and_validate(ck, exe, k, seed, count, maxn):
     tp = os.path.join(D, "trace-%d.ndjson" % k)
     rc, so, se, _ = vlib.run_driver(exe, ["record", seed * 1000 + k, count, tp, maxn], timeout=1500)
-    if rc != 0:
+    if rc not in (0, 4):                                # 4: a call did not return; the log ends with a Hang event
         raise vlib.Infra("drv_sampler record failed (rc=%s): %s %s" % (rc, so[-400:], se[-400:]))
     evs = vlib.read_ndjson(tp)
     r = validate_trace(ck, "chunk%d" % k, tp)
